@@ -36,6 +36,8 @@ def parse(path):
             if v[0] == "TR":
                 edges.append((tuple(v[1]), v[2], tuple(v[3])))
             elif v[0] == "ST":
+                if states.get(tuple(v[1]), v[2]) != v[2]:
+                    raise Machinery(f"two different heaps share the node id {v[1]} (fingerprint collision): the emitted graph cannot be trusted")
                 states[tuple(v[1])] = v[2]
             elif v[0] == "ROOT":
                 if tuple(v[1]) not in roots:
